@@ -122,6 +122,37 @@ func basicOps() []OpDef {
 			from := h.anyWallet(r)
 			return &Call{Name: "sc.unknown-address", Mut: "bad-sc", Spec: world.TxnSpec{From: from, To: h.anyWallet(r).ID, Value: Coin(r.Intn(100)), Fee: Coin(h.fee(r)), Type: transaction.TxnTypeSmartContract, Func: "pour", Input: map[string]string{}}}
 		}},
+		{Name: "absent-sender", Tags: []string{"core", "C03"}, Build: func(h *Hist, r *mon.Rand) *Call {
+			// a wallet that has no entry in the state trie yet (never funded, never transacted) sends a transaction it can pay with
+			// a zero balance; its first applied transaction must carry nonce 1 like everybody's. The wallet is remembered, so later
+			// calls walk it through nonces ahead / in order / replays.
+			fresh, _ := h.Vars["absent_senders"].([]*world.Wallet)
+			var from *world.Wallet
+			if len(fresh) > 0 && r.Chance(0.6) {
+				from = fresh[r.Intn(len(fresh))]
+			} else {
+				from = h.W.AddWallet(fmt.Sprintf("%s-absent%d", h.ID, len(fresh)))
+				h.Names[from.ID] = from.Name
+				fresh = append(fresh, from)
+				h.Vars["absent_senders"] = fresh
+			}
+			var c *Call
+			switch r.Intn(3) {
+			case 0:
+				c = &Call{Name: "data", Spec: world.TxnSpec{From: from, To: "", Fee: 0, Type: transaction.TxnTypeData, Data: fmt.Sprintf("absent-%d", r.Intn(1000))}}
+			case 1:
+				c = &Call{Name: "faucet.pour", Spec: world.TxnSpec{From: from, To: faucetsc.ADDRESS, Fee: 0, Type: transaction.TxnTypeSmartContract, Func: "pour", Input: map[string]string{}}}
+			default:
+				c = &Call{Name: "send", Spec: world.TxnSpec{From: from, To: h.anyClient(r).ID, Value: 0, Fee: 0, Type: transaction.TxnTypeSend}}
+			}
+			ref := h.RefNonce[from.ID]
+			c.Mut = "absent-sender"
+			if r.Chance(0.6) {
+				c.Spec.Nonce = ref + []int64{2, 3, 5, 1 << 40}[r.Intn(4)]
+				c.Mut = "absent-sender-nonce-ahead"
+			}
+			return c
+		}},
 		{Name: "sc.unknown-function", Tags: []string{"core"}, Build: func(h *Hist, r *mon.Rand) *Call {
 			from := h.anyWallet(r)
 			names := []string{"faucet", "miner", "storage", "vesting", "zcn", "multisig"}
